@@ -198,7 +198,7 @@ class ColumnDefinition:
             )
 
             # Make sure an error did not occur retrieving the segment index
-            if segment_index <= 0 or segment_index > len(remaining_column_text):
+            if segment_index < 0 or segment_index > len(remaining_column_text):
                 log_message = (
                     "Column name: {} with index: {} has a segment out of bounds with index: {} when the "
                     "remaining column text is: {} with length: {} from full column text: {}."
